@@ -30,6 +30,7 @@ type tkind struct {
 	named    reflect.Type // nil: no named variant is generated
 	bits     int
 	min, max *big.Int // integer classes and Duration (nanoseconds)
+	monitor  bool     // outside the property's quantifier: converted and counted, never judged
 }
 
 type myBool bool
@@ -100,6 +101,9 @@ func initKinds() {
 	// the quantifier names "time.Duration, pointer-to and named variants of
 	// them": a named type over time.Duration is a duration (5 means 5s)
 	add("duration", cDur, time.Duration(0), myDuration(0))
+	// not one of the fourteen kinds the property holds for: monitors only
+	add("uintptr", cUint, uintptr(0), nil)
+	kindBy["uintptr"].monitor = true
 }
 
 // ---------------------------------------------------------------------------
@@ -201,8 +205,9 @@ type expectation struct {
 	real      *big.Float // Duration from float seconds: exact real nanoseconds
 	realTol   bool       // accept |stored-real| < 1ns
 	truncated bool
-	rounded   bool // float target: the real value is not representable, the nearest one is expected
-	strict    bool // an error here is a "spurious error"
+	rounded   bool     // float target: the real value is not representable, the nearest one is expected
+	strict    bool     // an error here is a "spurious error"
+	decimal   *float64 // float target, a numeral both syntaxes read differently ("010"): what it is as a decimal floating point text
 }
 
 func errExp(why string) expectation { return expectation{mode: mErr, why: why} }
@@ -426,6 +431,14 @@ func expect(s src, t *tkind) expectation {
 		return errExp("unparsable-string")
 	case cFloat:
 		f, err := strconv.ParseFloat(str, 64)
+		if v, _, _, _ := parseIntAny(str); err == nil && v != nil && f != nearestFloat(v) {
+			// "010": 8 for every integer target (base 0, Go's own literal
+			// syntax), 10 as a floating point text. A setting has ONE
+			// mathematical value: a float target holds the integer's value or fails.
+			e := relax(expectNum(num{v: v}, t))
+			e.decimal = &f
+			return e
+		}
 		if err == nil {
 			e := expectNum(num{isFloat: true, f: f}, t)
 			e.strict = false
